@@ -32,3 +32,22 @@ Proof. exact same_spec_same_behaviour. Qed.
 Print Assumptions C13_no_map_range.
 Print Assumptions C13_behaviour_depends_on_abstract_state_only.
 Print Assumptions C13_step_deterministic.
+
+(** ** Storage order in the code of /repo itself: archetypes and nodes live in a
+    pagedSlice (ecs/util.go); as translated into [Gen/GoPaged.v] it is an append-only list -
+    position i holds the i-th value added, whatever the page layout. *)
+From Arche Require Import Pure.GoRt Gen.GoPaged Proofs.PagedTie.
+Local Open Scope nat_scope.
+Theorem C13_code_paged_add : forall g l v, ps_rel g l -> (N.of_nat (length l) + 1 < 2 ^ 31)%N ->
+  exists g', pagedSlice_Add g v = Ret g' /\ ps_rel g' (l ++ [v]).
+Proof. exact Add_tie. Qed.
+Theorem C13_code_paged_get : forall g l i x, ps_rel g l -> l !! i = Some x -> pagedSlice_Get g (N.of_nat i) = Ret x.
+Proof. exact PagedTie.Get_tie. Qed.
+Theorem C13_code_paged_set : forall g l i v, ps_rel g l -> i < length l ->
+  exists g', pagedSlice_Set g (N.of_nat i) v = Ret g' /\ ps_rel g' (<[i := v]> l).
+Proof. exact PagedTie.Set_tie. Qed.
+Theorem C13_code_paged_len : forall g l, ps_rel g l -> pagedSlice_Len g = N.of_nat (length l).
+Proof. exact Len_tie. Qed.
+Example C13_code_paged_initial : ps_rel zero_pagedSlice [].
+Proof. exact zero_rel. Qed.
+Print Assumptions C13_code_paged_add.
